@@ -25,7 +25,7 @@ EXPRS = [
     ("genexp", "(x for x in a)"), ("nested-comp", "[y for x in a for y in x]"), ("await", None), ("yield", None), ("starred", "[*a, b]"),
     ("walrus", "(n := a)"), ("int", "1"), ("int-underscore", "1_000"), ("int-bin", "0b101"), ("int-oct", "0o17"), ("int-hex", "0XFF"), ("float", "1.5"),
     ("float-exp", "1e-3"), ("float-dot", "1."), ("float-leading-dot", ".5"), ("imag", "2j"), ("str", "'s'"), ("str-dq", '"d"'), ("str-raw", "r'\\n'"),
-    ("bytes", "b'x'"), ("bytes-raw", "rb'x'"), ("str-triple", '"""t"""'), ("str-concat", "'a' 'b'"), ("fstr", "f'{a}'"), ("fstr-conv", "f'{a!r}'"),
+    ("bytes", "b'x'"), ("bytes-raw", "rb'x'"), ("str-triple", '"""t"""'), ("str-triple-doubled-quote", '"""a "" b\nc"""'), ("str-triple-sq-doubled", "'''it''s\nx'''"), ("fstr-hash", "f'#{a:02x} #{b}'"), ("str-concat", "'a' 'b'"), ("fstr", "f'{a}'"), ("fstr-conv", "f'{a!r}'"),
     ("fstr-spec", "f'{a:>4}'"), ("fstr-eq", "f'{a=}'"), ("fstr-nested", "f'{a:{b}}'"), ("fstr-text", "f'x{a}y{b}z'"), ("ellipsis", "..."), ("none", "None"),
     ("true", "True"), ("paren-expr", "(a + b) * c"), ("call-genexp", "f(x for x in a)"), ("attr-call-chain", "a.b(c).d[0]"), ("unicode-str", "'\u00e9\u20ac'"),
     ("kwsub-not-in", "x not in n"), ("kwsub-not-in-2", "i not in i"), ("kwsub-is-not", "x is not t"), ("kwsub-is-not-2", "n is not o"), ("kwsub-in", "i in n"),
@@ -123,7 +123,7 @@ def wrap_special(kind, e):
 class C08(Check):
     pid = "C08"
     level = "exploration"
-    rule = ("cases = modules built from 83 expression atoms (incl. single-letter names that are substrings of the adjacent keyword) x 10 expression contexts inside `x = ...`, 28 simple statements (with every "
+    rule = ("cases = modules built from 86 expression atoms (incl. single-letter names that are substrings of the adjacent keyword) x 10 expression contexts inside `x = ...`, 28 simple statements (with every "
             "expression atom in their hole at depth 1, a fixed atom at depth 2), 28 compound statements with every simple statement "
             "as body, x 13 layout deviations (0 or 1 per module); evaluations = sub-checks per module: annotation succeeds, "
             "write_ast == source, every node with an interpreter position has a region, regions nest, region text == interpreter "
